@@ -32,3 +32,17 @@ package signdeb
 //@   before call builtin send(_, _): assert @the_pipe_is_drained_before_results_are_handed_over_so_the_digesting_side_never_blocks drained && sent <= 1
 //@   on call builtin send(_, _) ret (): sent = sent + 1
 //@   ensures @control_information_and_error_are_both_sent_once sent == 2 && drained
+//@
+//@ func Verify
+//@   property C02 C11
+//@   nopanic
+//@   requires r != nil
+//@   ghost pgp int = 0
+//@   ghost cmp int = 0
+//@   before call pgptools.VerifyClearSign(src, dst, ring): assert @signature_member_verified_against_the_callers_keyring ring == keyring && dst == iface(addr(body)) && (!skipDigest ==> pgp == cmp)
+//@   on call pgptools.VerifyClearSign(_, _, _) ret (i, e): pgp = ite(e == nil, pgp + 1, 0 - 1000000)
+//@   before call checkSig(ro, b, ds): assert @signed_digest_list_compared_with_the_members_actually_read ro == role && b == iface(addr(body)) && ds == digests && pgp == cmp + 1 && !skipDigest
+//@   on call checkSig(_, _, _) ret (e): cmp = ite(e == nil, cmp + 1, 0 - 1000000)
+//@   ensures @every_signature_member_is_pgp_verified_and_its_digest_list_compared_unless_skipped ret1 == nil ==> pgp >= 0 && (!skipDigest ==> cmp == pgp)
+//@   loop 0 sig "for" invariant pgp == 0 && cmp == 0 && reader != nil && digests != nil && sigs != nil
+//@   loop 1 sig "for role, sig := range sigs" invariant pgp >= 0 && (!skipDigest ==> cmp == pgp) && (skipDigest ==> cmp == 0) && ret != nil
